@@ -381,7 +381,8 @@ class Graph:
         connections = set()
         for n2, v2 in nodes.items():
             if filter_edges:  # Also filter edges that only exist between vertices in `nodes`
-                for n1, i in v2.inputs.items():
+                for _, i in v2.inputs.items():
+                    n1 = i.output_node.name  # inputs are keyed by the (shadow) input name, edges by node names
                     if n1 in nodes:
                         connections.add((n1, n2))
             else:  # Only filters vertices, meaning vertices may have more edges than connections in nodes.
@@ -1632,7 +1633,8 @@ class EpisodeRecord:
                     "so the graph cannot be reconstructed."
                 )
             if filter_connections:  # Also filter connections that only exist between nodes in `nodes`
-                for n1, i in v2.inputs.items():
+                for _, i in v2.inputs.items():
+                    n1 = i.output_node.name  # inputs are keyed by the (shadow) input name, records by node names
                     if n1 in nodes:
                         connections.add((n1, n2))
             else:  # Only filters nodes, meaning self.nodes may have more connections than nodes.
